@@ -23,10 +23,21 @@ from mut import World, Run, NotLive, CallbackFault, EMODEL, OP_RECURSION_LIMIT, 
 
 
 def replay(hist, oracles=("wf",), pre=None, post=None, keep_world=False) -> Run:
+    """see the module docstring.  One extra history entry is understood here (not by mut.execute):
+
+        ["iter_remove", ti, DID]     for n in tree.find_all(data_id=DID): n.remove()
+
+    the hostile-caller pattern "iterate over a lookup result while removing what it yields".  It is expanded
+    while it runs: every node the iteration yields becomes one ordinary ["remove", ti, n, False, False] step
+    (own observation, own Coq op).  A lookup result is a snapshot, so the iteration has to yield exactly the
+    nodes that carried the id when find_all was called; anything else is reported under the oracle name "lookup"."""
     w = World(hist["univ"])
     run = Run()
-    before = w.obs()
-    for si, op in enumerate(hist["ops"]):
+    state = {"before": w.obs()}
+
+    def do_step(op):
+        si = len(run.steps)
+        before = state["before"]
         alloc0 = w.allocated()
         ntrees0 = len(w.trees)
         try:
@@ -41,7 +52,7 @@ def replay(hist, oracles=("wf",), pre=None, post=None, keep_world=False) -> Run:
             if post is not None:
                 for name, msg in post(w, si, step, None) or []:
                     run.fails.append((si, name, msg))
-            continue
+            return
         run.coq_ops.append(coq)
         ctx = pre(w, si, op) if pre is not None else None
         _old = sys.getrecursionlimit()
@@ -80,7 +91,32 @@ def replay(hist, oracles=("wf",), pre=None, post=None, keep_world=False) -> Run:
         if post is not None:
             for name, msg in post(w, si, step, ctx) or []:
                 run.fails.append((si, name, msg))
-        before = after
+        state["before"] = after
+
+    for op in hist["ops"]:
+        if op[0] == "iter_remove":
+            _, ti, e = op
+            t = w.tree(ti)
+            if t is None:
+                do_step(["clear", 999])
+                continue
+            try:
+                result = t.find_all(data_id=e)
+            except Exception:
+                continue
+            snap = list(result)
+            visited = []
+            for nd in result:                 # the caller iterates the object it was given, and removes as it goes
+                visited.append(nd)
+                if len(visited) > len(snap) + 5:
+                    break
+                do_step(["remove", ti, w.rel(nd), False, False])
+            if len(visited) != len(snap) or any(a is not b for a, b in zip(visited, snap)):
+                run.fails.append((max(0, len(run.steps) - 1), "lookup",
+                                  f"iterating over find_all(data_id={e!r}) while removing the yielded nodes visited "
+                                  f"{[w.rel(x) for x in visited]}, the lookup had returned {[w.rel(x) for x in snap]} (a result must be a snapshot)"))
+            continue
+        do_step(op)
     if keep_world:
         run.world = w
     return run
